@@ -52,20 +52,15 @@ CONSTANTS Depth,          \* "quick" | "thorough" : how much of the grammar x mu
           PanicSites,     \* reader sites that slice / unwrap without a check in the transcribed code
           OverflowChecks  \* TRUE: arithmetic overflow panics (debug build); the shipped build wraps
 
-\* The unchecked slices / unwraps of the pinned commit (model names: file::function#kind).  The MC and trace
-\* configurations substitute this set for PanicSites; when the fix of a site is committed to /repo, delete the
-\* site here (otherwise Layer M reports the no-longer-reproduced panics as NONCONFORMANCE).
-PinnedPanicSites ==
-  { "armor.rs::decode#range-start", "armor.rs::decode#range-end",                                    \* fixes/C09-1
-    "ser.rs::option_dalek_sig_serde::deserialize#range-end", "ser.rs::dalek_sig_serde::deserialize#range-end",
-    "ed25519::Signature::new#invalid-signature", "grin_secp256k1zkp::RangeProof::visit_seq#index",     \* fixes/C09-2
-    "v4_bin.rs::ProofWrap::read#unwrap",                                                              \* fixes/C09-3
-    "types.rs::try_decrypt_payload#range-end", "types.rs::try_decrypt_payload#split_off",
-    "types.rs::try_decrypt_payload#unreachable",                                                      \* fixes/C09-4
-    "lmdb.rs::get_stored_tx#unwrap",                                                                  \* fixes/C09-5
-    "grin_keychain::BlindingFactor::from_hex#unwrap",                                                 \* fixes/C09-7
-    "grin_keychain::Identifier::from_hex#unwrap",                                                     \* fixes/C09-8
-    "grin_util::from_hex#char-boundary" }                                                             \* upstream (fixes/C09-2,5,6,9 guard the wallet's own callers)
+\* The unchecked sites of the code the model transcribes (model names: file::function#kind).  The MC and trace
+\* configurations substitute this set for PanicSites.  The slices / unwraps of armor.rs, ser.rs, v4_bin.rs,
+\* slatepack/types.rs, lmdb.rs, ov3.rs, v4.rs (offset), api_impl/types.rs (key_id) and api/src/types.rs (nonce) found
+\* by this check were repaired in /repo (fix: commits 7f20db4 .. a441d49); the readers below transcribe the repaired code.
+\* What is left is upstream: grin_util::from_hex slices a &str at byte offsets and panics inside a multi-byte
+\* character; the wallet guards its own callers, the serde helpers of grin_core::libtx::secp_ser do not.
+PinnedPanicSites == { "grin_util::from_hex#char-boundary" }
+\* (still unguarded: grin_core::libtx::secp_ser pubkey_serde, option_sig_serde, commitment_from_hex, option_seckey_serde
+\* - classes secphex, sighex, commithex, tokenhex below - and LMDBBackend::get_stored_tx)
 
 RECURSIVE Flat(_)
 Flat(ss) == IF ss = <<>> THEN <<>> ELSE Head(ss) \o Flat(Tail(ss))
@@ -507,7 +502,7 @@ LenEff(ly, Ls, j, mu, sh) ==
          (CASE mu.a = "v0"  -> E("err")
             [] mu.a = "dec" -> E("err")      \* the last metadata field (an address, or the flags themselves) is cut: EOF
             [] mu.a = "inc" -> E("innerany")
-            [] OTHER        -> PanicAt("types.rs::try_decrypt_payload#split_off"))
+            [] OTHER        -> E("err"))     \* meta_len + 4 beyond the plaintext: "Invalid encrypted metadata length"
     [] lf.a = "len" /\ \E i \in DOMAIN Ls : Ls[i].n = lf.of /\ Ls[i].a = "bech32" -> E("err")   \* bech32 text cut / extended / empty
     [] lf.a = "len" /\ \E i \in DOMAIN Ls : Ls[i].n = lf.of /\ Ls[i].a = "raw" ->              \* RangeProof::read: min(len, MAX_PROOF_SIZE)
          (CASE mu.a \in {"inc", "max"} -> E("cont") [] OTHER -> Havoc_Misaligned)
@@ -519,18 +514,12 @@ BinEff(ly, Ls, j, mu, sh) ==
       last == j = Len(Ls)
       hasInner == lf.k \in {"blob", "rest"} /\ lf.a = "inner"
   IN
-  CASE mu.m = "trunc_before" -> IF ly = "b58" /\ lf.n = "check" THEN PanicAt("armor.rs::decode#range-end")   \* nothing decoded: [0..4]
+  CASE mu.m = "trunc_before" -> IF ly = "b58" /\ lf.n = "check" THEN E("err")                                   \* fewer than 4 decoded bytes: "Payload too short"
                                  ELSE IF ly = "b58" /\ lf.n = "pack" THEN E("innererr")                        \* 4 bytes: check of empty data mismatches
-                                 ELSE IF ly = "encmeta" /\ lf.n = "meta_len" THEN PanicAt("types.rs::try_decrypt_payload#range-end")
                                  ELSE IF ly = "encmeta" /\ lf.n = "slate" THEN E("innererr")
-                                 ELSE IF ly = "encmeta" THEN PanicAt("types.rs::try_decrypt_payload#split_off")  \* plaintext shorter than meta_len + 4
-                                 ELSE E("err")
-    [] mu.m = "trunc_inside" -> IF ly = "b58" /\ lf.n = "check" THEN PanicAt("armor.rs::decode#range-end")
-                                 ELSE IF ly = "b58" THEN E("err")                                               \* check mismatch
-                                 ELSE IF ly = "encmeta" /\ lf.n = "meta_len" THEN PanicAt("types.rs::try_decrypt_payload#range-end")
-                                 ELSE IF ly = "encmeta" /\ lf.n = "slate" THEN E("innererr")
-                                 ELSE IF ly = "encmeta" THEN PanicAt("types.rs::try_decrypt_payload#split_off")
-                                 ELSE E("err")
+                                 ELSE E("err")          \* encmeta: plaintext shorter than 4 bytes / than meta_len + 4 is checked before split_off
+    [] mu.m = "trunc_inside" -> IF ly = "encmeta" /\ lf.n = "slate" THEN E("innererr")
+                                 ELSE E("err")          \* b58: too short / check mismatch; encmeta: length checks; elsewhere EOF
     [] mu.m = "extend"       -> IF ly = "b58" THEN E("err")                       \* check covers all of the data
                                  ELSE IF ly = "encmeta" THEN E("cont")            \* trailing bytes of the slate are not looked at
                                  ELSE E("cont")
@@ -545,8 +534,7 @@ BinEff(ly, Ls, j, mu, sh) ==
                                  ELSE IF lf.k = "blob" /\ lf.a = "bech32" THEN E("err")
                                  ELSE E("cont")                                                   \* id, offset, commitments, signatures, proofs: any bytes
     [] mu.m = "badpoint"     -> IF lf.a = "secp" THEN E("err")
-                                 ELSE IF lf.a = "edpk" THEN PanicAt("v4_bin.rs::ProofWrap::read#unwrap")
-                                 ELSE PanicAt("v4_bin.rs::ProofWrap::read#unwrap")                  \* edsig
+                                 ELSE E("err")                                                    \* ProofWrap::read maps both to CorruptedData
     [] mu.m \in {"nonutf8", "char"} -> E("err")                                                   \* address text: from_utf8 / bech32 checksum
     [] mu.m = "flip" /\ lf.k = "fix" -> IF ly = "b58" THEN E("err") ELSE E("cont")                   \* a bit of an unchecked fixed field
     [] mu.m = "flip"         -> IF mu.a \in {Str(b) : b \in lf.bits} THEN Havoc_Misaligned          \* an optional field appears / disappears
@@ -576,14 +564,14 @@ ArmorEff(lf, mu) ==
   LET n == lf.n IN
   CASE mu.m = "trunc_before" ->
          (CASE n \in {"hdr", "dot1"} -> E("err")                                    \* shorter than min_size
-            [] n \in {"sp1", "body", "dot2"} -> PanicAt("armor.rs::decode#range-start")   \* no second period
+            [] n \in {"sp1", "body", "dot2"} -> E("err")                            \* no second period: "Bad armor framing"
             [] n \in {"sp2", "ftr"} -> E("err")                                     \* footer does not match
             [] OTHER -> E("cont"))                                                  \* dot3, nl: the footer regex needs no period
     [] mu.m = "trunc_inside" ->
-         (CASE n = "hdr" -> E("err") [] n = "body" -> PanicAt("armor.rs::decode#range-start") [] OTHER -> E("err"))
+         E("err")
     [] mu.m = "delete" ->
          (CASE n \in {"hdr", "dot1"} -> E("err")                                    \* not recognised as armor, not binary, not JSON
-            [] n = "body" -> PanicAt("armor.rs::decode#range-end")                   \* empty payload: base_decode[0..4]
+            [] n = "body" -> E("err")                                               \* empty payload: "Payload too short"
             [] n \in {"dot2", "ftr"} -> E("err")
             [] OTHER -> E("cont"))                                                  \* whitespace, last period, newline
     [] mu.m = "dup" ->
@@ -594,42 +582,36 @@ ArmorEff(lf, mu) ==
     [] mu.m = "nonutf8" -> E("err")
     [] mu.m = "char" /\ mu.a = "ws" -> IF n = "body" THEN E("cont") ELSE E("err")    \* whitespace inside a frame word breaks the regex
     [] mu.m = "char" -> E("err")                                                    \* not base58 / check mismatch
-    [] mu.m = "body" -> PanicAt("armor.rs::decode#range-end")                       \* fewer than 4 decoded bytes
+    [] mu.m = "body" -> E("err")                                                    \* fewer than 4 decoded bytes
     [] mu.m = "extend" -> IF mu.a = "max" THEN E("err") ELSE E("cont")              \* max_size bound; anything after the footer is ignored
     [] OTHER -> Havoc_Semantics
 
 \* ---- age (Slatepack::try_decrypt_payload)
 AgeEff(mu) ==
-  CASE mu.m = "age" /\ mu.a = "scrypt" -> PanicAt("types.rs::try_decrypt_payload#unreachable")
-    [] mu.m = "age" /\ mu.a \in {"plain0", "plain3"} -> PanicAt("types.rs::try_decrypt_payload#range-end")
-    [] OTHER -> E("err")
+  E("err")     \* corrupted / foreign / passphrase-type ciphertexts and plaintexts shorter than the length prefix are all refused
 
 \* ---- JSON (serde derive + the with-modules of slate_versions/ser.rs and grin_core secp_ser)
 \* carrier = "value" when the document went through serde_json::Value first (JSON-RPC params),
 \* "text" when it is deserialised from text
+FromHexPanic == PanicAt("grin_util::from_hex#char-boundary")
 JsonStrEff(cls, v) ==
-  CASE cls = "secphex"  -> IF v = "nonascii" THEN PanicAt("grin_util::from_hex#char-boundary") ELSE E("err")
-    [] cls = "sighex"   -> (CASE v = "long" -> E("cont") [] v = "nonascii" -> PanicAt("grin_util::from_hex#char-boundary") [] OTHER -> E("err"))
+  CASE cls = "secphex"  -> IF v = "nonascii" THEN FromHexPanic ELSE E("err")                    \* secp_ser::pubkey_serde
+    [] cls = "sighex"   -> (CASE v = "long" -> E("cont") [] v = "nonascii" -> FromHexPanic [] OTHER -> E("err"))   \* secp_ser::option_sig_serde
     [] cls = "commithex" -> (CASE v \in {"empty", "short", "long"} -> E("cont")      \* Commitment::from_vec pads / truncates
-                               [] v = "nonascii" -> PanicAt("grin_util::from_hex#char-boundary") [] OTHER -> E("err"))
-    [] cls = "proofhex" ->       \* RangeProof::deserialize from a byte sequence: ret[i] = val for every byte, no bound (secp256k1zkp pedersen.rs)
-         (CASE v = "nonascii" -> PanicAt("grin_util::from_hex#char-boundary") [] v \in {"odd", "nonhex"} -> E("err")
-            [] v = "long" -> PanicAt("grin_secp256k1zkp::RangeProof::visit_seq#index") [] OTHER -> E("cont"))
-    [] cls = "edpkhex"  -> IF v = "nonascii" THEN PanicAt("grin_util::from_hex#char-boundary") ELSE E("err")
-    [] cls \in {"edsighex", "edsighexreq"} ->
-         (CASE v \in {"empty", "short"} -> PanicAt(IF cls = "edsighex" THEN "ser.rs::option_dalek_sig_serde::deserialize#range-end"
-                                                                      ELSE "ser.rs::dalek_sig_serde::deserialize#range-end")
-            [] v = "long" -> E("cont") [] v = "nonascii" -> PanicAt("grin_util::from_hex#char-boundary")
-            [] v = "badpoint" -> PanicAt("ed25519::Signature::new#invalid-signature")   \* DalekSignature::try_from([u8; 64]) is From: panics
-            [] OTHER -> E("err"))
-    [] cls = "blindhex" -> (CASE v \in {"empty", "short", "long"} -> E("cont")       \* BlindingFactor::from_slice pads / truncates
-                              [] v = "nonascii" -> PanicAt("grin_util::from_hex#char-boundary")
-                              [] OTHER -> PanicAt("grin_keychain::BlindingFactor::from_hex#unwrap"))
-    [] cls = "identhex" -> (CASE v \in {"empty", "short", "long"} -> E("cont")       \* Identifier::from_bytes pads / truncates
-                              [] v = "nonascii" -> PanicAt("grin_util::from_hex#char-boundary")
-                              [] OTHER -> PanicAt("grin_keychain::Identifier::from_hex#unwrap"))
-    [] cls \in {"tokenhex", "noncehex"} ->      \* at least 32 / 12 bytes, the first 32 / 12 are used
-         (CASE v = "long" -> E("cont") [] v = "nonascii" -> PanicAt("grin_util::from_hex#char-boundary") [] OTHER -> E("err"))
+                               [] v = "nonascii" -> FromHexPanic [] OTHER -> E("err"))
+    [] cls = "proofhex" ->       \* ser.rs option_rangeproof_hex: checked hex, at most MAX_PROOF_SIZE bytes, shorter is padded
+         (CASE v \in {"empty", "short"} -> E("cont") [] OTHER -> E("err"))
+    [] cls = "edpkhex"  -> E("err")                                                  \* ser.rs dalek_pubkey_serde: checked hex, exactly 32 bytes, a curve point
+    [] cls \in {"edsighex", "edsighexreq"} ->                                        \* ser.rs (option_)dalek_sig_serde: at least 64 bytes, TryFrom<&[u8]>
+         (CASE v = "long" -> E("cont") [] OTHER -> E("err"))
+    [] cls = "blindhex" -> (CASE v \in {"empty", "short", "long"} -> E("cont")       \* v4.rs blind_from_hex: checked hex, BlindingFactor::from_slice pads / truncates
+                              [] OTHER -> E("err"))
+    [] cls = "identhex" -> (CASE v \in {"empty", "short", "long"} -> E("cont")       \* api_impl/types.rs option_identifier_from_hex; Identifier::from_bytes pads / truncates
+                              [] OTHER -> E("err"))
+    [] cls = "tokenhex" ->       \* secp_ser::option_seckey_serde: at least 32 bytes, the first 32 are used
+         (CASE v = "long" -> E("cont") [] v = "nonascii" -> FromHexPanic [] OTHER -> E("err"))
+    [] cls = "noncehex" ->       \* EncryptedBody::decrypt: ASCII, hex, at least 12 bytes, the first 12 are used
+         (CASE v = "long" -> E("cont") [] OTHER -> E("err"))
     [] cls = "anystr" -> E("cont")      \* EncryptedRequest.jsonrpc / .method are Strings nobody looks at
     [] cls \in {"verstr", "packver", "stastr", "uuid", "bech32", "rpcver", "enumstr", "datetime"} -> IF cls = "bech32" /\ v = "upper" THEN E("cont") ELSE E("err")   \* bech32 is case-insensitive as a whole
     [] cls = "optuuid" -> E("err")
@@ -675,19 +657,15 @@ JsonEff(ly, lf, mu, carrier) ==
 
 \* ---- single-token text formats
 TextEff(ly, mu) ==
-  CASE ly = "grintx" ->     \* LMDBBackend::get_stored_tx: from_hex(..).unwrap(), deserialize(..).unwrap()
-         (CASE mu.m \in {"char", "nonutf8", "nonascii", "trunc_inside", "delete", "empty", "dup", "extend", "case", "grintx"} ->
-                 (CASE mu.m = "nonutf8" -> E("err")                                        \* read_to_string fails first
-                    [] mu.m = "case" -> E("cont")
-                    [] mu.m = "dup" -> Havoc_Semantics
-                    [] mu.m = "char" /\ mu.a = "flip" -> Havoc_Semantics                   \* still hex, may still be a transaction
-                    [] mu.m = "extend" -> PanicAt("lmdb.rs::get_stored_tx#unwrap")         \* odd number of hex digits
-                    [] OTHER -> PanicAt("lmdb.rs::get_stored_tx#unwrap"))
-            [] OTHER -> Havoc_Semantics)
-    [] ly = "onion" ->
+  CASE ly = "grintx" ->     \* LMDBBackend::get_stored_tx: from_hex and deserialize failures are Error::StoredTx; no ASCII check before from_hex
+         (CASE mu.m = "case" -> E("cont")
+            [] mu.m = "dup" -> Havoc_Semantics
+            [] mu.m = "char" /\ mu.a = "flip" -> Havoc_Semantics                   \* still hex, may still be a transaction
+            [] mu.m = "nonascii" -> PanicAt("grin_util::from_hex#char-boundary")
+            [] OTHER -> E("err"))
+    [] ly = "onion" ->        \* OnionV3Address::try_from: ASCII only, then hex, then base32 + checksum
          (CASE mu.m = "case" -> E("cont")
             [] mu.m = "onion" /\ mu.a \in {"http", "suffix", "hex"} -> E("cont")
-            [] mu.m = "nonascii" -> PanicAt("grin_util::from_hex#char-boundary")     \* OnionV3Address::try_from tries from_hex first
             [] OTHER -> E("err"))
     [] ly = "spaddr" ->
          (CASE mu.m = "case" -> E("cont") [] OTHER -> E("err"))      \* bech32 is case-insensitive as a whole
